@@ -1525,9 +1525,9 @@ TARGETS = [
     # the same strategies / oracles right after a switch between the polynomials of the degree (costs ~1 s per case:
     # two fb_param_set and a fresh process for the next case)
     Target("fb-switch", deferred("fb", strat_inv, run_inv)[0], switched(deferred("fb", strat_inv, run_inv)[1]), _cfgs(),
-           quick=240, thorough=1200),
+           quick=160, thorough=1200, job_size={"quick": 40, "thorough": 150}),
     Target("fb-switch-misc", deferred("fb", strat_misc, run_misc)[0], switched(deferred("fb", strat_misc, run_misc)[1]),
-           _cfgs(), quick=160, thorough=800),
+           _cfgs(), quick=96, thorough=800, job_size={"quick": 32, "thorough": 100}),
     Target("eb-law", *deferred("eb", strat_law, run_law), _cfgs(), quick=14400, thorough=20000),
     Target("fb-rdc", *deferred("fb", strat_rdc, run_rdc), _cfgs(), quick=24000, thorough=50000),
     Target("fb-exp", *deferred("fb", strat_exp, run_exp), _cfgs(), quick=16000, thorough=30000),
